@@ -3725,7 +3725,11 @@ func (a *Association) resetOutgoingStreamSequenceNumbers(reconfigRequestSequence
 		return
 	}
 	for _, id := range resetRequest.streamIdentifiers {
-		if s, ok := a.streams[id]; ok {
+		// Only the stream whose outgoing side this request closed is reset. When
+		// the response arrives late the identifier may have been re-opened already:
+		// the new stream started from zero and rewinding its counters in the middle
+		// of its data would make the peer drop or reorder its messages.
+		if s, ok := a.streams[id]; ok && s.State() != StreamStateOpen {
 			s.resetOutgoingStreamSequenceNumbers()
 		}
 	}
